@@ -166,7 +166,13 @@ func hValid(op HOp) string {
 			return "invalid private key"
 		}
 	case "quote":
-		if !ref.FeeQuoteEditOK(hEdit(op)) {
+		e := hEdit(op) // any positive byte denominator and non-negative satoshi amount (see quoteWide)
+		for _, u := range []*ref.FeeUnit{&e.Unit, &e.Unit2} {
+			if u.Bytes >= 1 && u.Sat >= 0 {
+				*u = ref.FeeUnit{Sat: 1, Bytes: 1}
+			}
+		}
+		if !ref.FeeQuoteEditOK(e) {
 			return "quote outside domain"
 		}
 	}
@@ -299,8 +305,15 @@ func (s *hState) apply(op HOp) (string, error) {
 			return "skipped", nil
 		}
 		i := op.At % nin
+		priv, pub := bec.PrivKeyFromBytes(bec.S256(), op.B)
+		if op.N >= 1 && op.N <= 3 {
+			// the input spends a P2PKH output that pays to this very key: to the HASH160 of its
+			// compressed (1), uncompressed (2) or hybrid (3) encoding
+			ls := ref.FeeP2PKH(hash160(keyEncoding(pub, op.N-1)))
+			s.m.In[i].PrevScript, s.m.In[i].PrevNil = append(pbt.Hex{}, ls...), false
+			s.tx.Inputs[i].PreviousTxScript = bscript.NewFromBytes(append([]byte{}, ls...))
+		}
 		funded := !s.m.In[i].PrevNil && ref.FeeIsP2PKH(s.m.In[i].PrevScript)
-		priv, _ := bec.PrivKeyFromBytes(bec.S256(), op.B)
 		err := s.tx.FillInput(context.Background(), &unlocker.Simple{PrivateKey: priv}, bt.UnlockerParams{InputIdx: uint32(i)})
 		if err != nil {
 			if funded {
@@ -318,7 +331,7 @@ func (s *hState) apply(op HOp) (string, error) {
 			return "", fmt.Errorf("input %d signed by the library carries %d bytes, more than the %d-byte placeholder of the estimate", i, len(u), ref.FeeUnlockP2PKHLen)
 		}
 		s.m.In[i].Unlock, s.m.In[i].UnlockNil = u, false
-		return fmt.Sprintf("signed(%d bytes)", len(u)), nil
+		return fmt.Sprintf("signed(%d bytes, spent script pays to key form %d)", len(u), op.N), nil
 	case "addin":
 		in := ref.In{TxID: append(pbt.Hex{}, op.B...), Vout: uint32(op.N), Seq: 0xffffffff, UnlockNil: true, PrevSats: op.U64,
 			PrevScript: append(pbt.Hex{}, op.B2...), PrevNil: op.Nil}
@@ -544,7 +557,7 @@ func hMaxScript(m ref.Tx) int {
 }
 
 func checkHistory(ctx *pbt.Ctx, c HistCase) error {
-	if !quoteOK(c.Quote) {
+	if !quoteWide(c.Quote) {
 		ctx.Discard("quote outside domain")
 		return nil
 	}
@@ -593,10 +606,21 @@ func checkHistory(ctx *pbt.Ctx, c HistCase) error {
 	ctx.After(lq.Unmodified)
 	// satoshi amounts are uint64: every amount is in the domain as long as neither total overflows
 	inDomain := func() bool {
-		return ref.FeeSumIn(s.m).IsUint64() && ref.FeeSumOut(s.m).IsUint64() && !ref.Ambiguous(s.m)
+		if !(ref.FeeSumIn(s.m).IsUint64() && ref.FeeSumOut(s.m).IsUint64() && !ref.Ambiguous(s.m)) {
+			return false
+		}
+		if quoteIsWide(s.q) { // the exact fee products must fit uint64 (actual and estimated size)
+			if !feeFits(ref.FeeSizesOf(s.m), s.q) {
+				return false
+			}
+			if fin, _, err := ref.FeeEstimatedFinal(s.m); err == nil && !feeFits(ref.FeeSizesOf(fin), s.q) {
+				return false
+			}
+		}
+		return true
 	}
 	if !inDomain() {
-		ctx.Discard("a total overflows uint64")
+		ctx.Discard("a total or a fee product overflows uint64")
 		return nil
 	}
 	ctx.Labelf("steps=%d", len(c.Ops))
@@ -633,7 +657,7 @@ func checkHistory(ctx *pbt.Ctx, c HistCase) error {
 			}
 		}
 		if !inDomain() {
-			ctx.Discard("history leaves the domain (a total overflows uint64 / ambiguous shape)")
+			ctx.Discard("history leaves the domain (a total or a fee product overflows uint64 / ambiguous shape)")
 			return nil
 		}
 		cur, est, err := s.hAnswers(op.Q)
@@ -676,6 +700,9 @@ func checkHistory(ctx *pbt.Ctx, c HistCase) error {
 		}
 		if s.q != prevQ {
 			lab("quote-updated")
+		}
+		if quoteIsWide(s.q) {
+			lab("fee-unit-numbers>10^6")
 		}
 		if two63 := new(big.Int).Lsh(big.NewInt(1), 63); ref.FeeSumIn(s.m).Cmp(two63) >= 0 || ref.FeeSumOut(s.m).Cmp(two63) >= 0 {
 			lab("amounts>=2^63")
@@ -809,6 +836,7 @@ func genHOp(t *rapid.T, nin, nout int) HOp {
 			k[31] = 1
 		}
 		op.B = k
+		op.N = []int{0, 1, 2, 3}[rapid.IntRange(0, 3).Draw(t, "keyform")]
 	case "addin":
 		op.B = gen.Bytes(t, 32, "txid")
 		op.N = int(gen.U32(t, "vout") & 0x7fffffff)
@@ -827,6 +855,15 @@ func genHOp(t *rapid.T, nin, nout int) HOp {
 		op.Tag = genFeeTag(t, "tag")
 		op.Via = genQuoteVia(t, "via")
 		op.Unit2 = genUnit(t, "unit2")
+		if rapid.IntRange(0, 7).Draw(t, "wide") == 5 { // numbers from the upper part of the int range, mostly through JSON
+			op.Unit = genUnitWide(t, "wunit")
+			if rapid.Bool().Draw(t, "wide2") {
+				op.Unit2 = genUnitWide(t, "wunit2")
+			}
+			if rapid.IntRange(0, 2).Draw(t, "wide_json") != 0 {
+				op.Via = "unmarshal"
+			}
+		}
 	case "rep": // element counts reach the three-byte prefix on one side only, or on both
 		total := rapid.SampledFrom([]int{251, 252, 253, 254}).Draw(t, "total")
 		if rapid.Bool().Draw(t, "side") {
@@ -877,7 +914,7 @@ func genHistCase(t *rapid.T) HistCase {
 	for i := 0; i < nout; i++ {
 		c.Tx.Out = append(c.Tx.Out, ref.Out{Sats: rapid.Uint64Range(0, 5000).Draw(t, "osats"), Script: genHScript(t, "out")})
 	}
-	c.Quote = genQuote(t)
+	c.Quote = genQuoteWide(t)
 	if rapid.Bool().Draw(t, "subset0") {
 		c.Q0 = rapid.IntRange(1, qAll).Draw(t, "q0")
 	}
